@@ -473,6 +473,8 @@ def prove_scenario(scn, *, seed=0, crosscheck=2, max_paths=4000, timeout_ms=1000
                 for a, b in zip(Ls, Ln):
                     try:
                         va = float(nf.evaluate(nf.as_rf(a), env, fns))
+                        if va != va or abs(va) == float("inf"):
+                            raise OverflowError("non-finite float evaluation of the term")   # inf * 0 of two intermediate exps
                     except (OverflowError, ZeroDivisionError, ValueError):
                         # Python-float overflow of an intermediate exp at an extreme sample point: redo in extended precision
                         import mpmath
